@@ -2291,7 +2291,7 @@ def _pruneGDEF(font):
         return
     gdef = font["GDEF"]
     table = gdef.table
-    if not hasattr(table, "VarStore"):
+    if not getattr(table, "VarStore", None):
         return
 
     store = table.VarStore
@@ -2324,7 +2324,7 @@ def prune_post_subset(self, font, options):
         table.GlyphClassDef = None
     if table.AttachList and not table.AttachList.GlyphCount:
         table.AttachList = None
-    if hasattr(table, "VarStore"):
+    if getattr(table, "VarStore", None):  # the offset may be NULL
         _pruneGDEF(font)
         if table.VarStore.VarDataCount == 0:
             if table.Version == 0x00010003:
